@@ -58,24 +58,25 @@ type Plan struct {
 
 // Result of executing a plan.
 type Result struct {
-	Prop     string              `json:"prop"`
-	World    string              `json:"world"`
-	Seed     uint64              `json:"seed"`
-	Verdict  string              `json:"verdict"` // ok | violation | truncated | harness
-	Sig      string              `json:"sig,omitempty"`
-	Msg      string              `json:"msg,omitempty"`
-	At       string              `json:"at,omitempty"`
-	Stats    simcore.Stats       `json:"stats"`
-	Fired    []simcore.Directive `json:"fired,omitempty"`
-	Checks   int                 `json:"checks"`          // oracle evaluations
-	Ops      int                 `json:"ops"`             // operations executed
-	CaseHash string              `json:"case_hash"`       // canonical hash of (plan ops, switch sequence, fired events)
-	Trans    string              `json:"trans,omitempty"` // canonical transcript hash (C19 differential, determinism self-test)
-	Nontriv  bool                `json:"nontrivial"`
-	Probes   map[string]int      `json:"probes,omitempty"`
-	Known    []string            `json:"known,omitempty"` // known-finding ids whose tolerance was used
-	Tail     []string            `json:"tail,omitempty"`
-	Plan     *Plan               `json:"plan,omitempty"` // attached when not ok
+	Prop       string              `json:"prop"`
+	World      string              `json:"world"`
+	Seed       uint64              `json:"seed"`
+	Verdict    string              `json:"verdict"` // ok | violation | truncated | harness
+	Sig        string              `json:"sig,omitempty"`
+	Msg        string              `json:"msg,omitempty"`
+	At         string              `json:"at,omitempty"`
+	Stats      simcore.Stats       `json:"stats"`
+	Fired      []simcore.Directive `json:"fired,omitempty"`
+	Checks     int                 `json:"checks"`          // oracle evaluations
+	Ops        int                 `json:"ops"`             // operations executed
+	CaseHash   string              `json:"case_hash"`       // canonical hash of (plan ops, switch sequence, fired events)
+	Trans      string              `json:"trans,omitempty"` // canonical transcript hash (C19 differential, determinism self-test)
+	Nontriv    bool                `json:"nontrivial"`
+	Probes     map[string]int      `json:"probes,omitempty"`
+	Known      []string            `json:"known,omitempty"` // known-finding ids whose tolerance was used
+	Tail       []string            `json:"tail,omitempty"`
+	Plan       *Plan               `json:"plan,omitempty"`        // attached when not ok
+	BatchFirst uint64              `json:"batch_first,omitempty"` // first seed executed by this process (process history matters)
 }
 
 // World is one workload + oracle.
